@@ -1,6 +1,11 @@
 """C08 — delete() removes the tags and nothing else."""
+import io
 import containers
+import formats as F
+import walkers
+from guards import timed
 import id3file_tie
+import dsf_tie
 import iff_tie
 import apefile_tie
 
@@ -12,9 +17,90 @@ RULE = ("random edit histories (set tiny/huge/empty/unicode values, save with de
         "(format, sample, history index, step)")
 
 
+def opus_trailing_data(ctx):
+    """OpusTags packets with data behind the comment list (RFC 7845 §5.2: padding, to be preserved only when the least
+    significant bit of its first byte is set).  After delete the comment packet is the empty comment header, plus that data
+    exactly when it is to be preserved - never left-over padding."""
+    from mutagen.ogg import OggPage
+    from mutagen.oggopus import OggOpus
+    rng = ctx.rng
+    base = F.sample_bytes(ctx.repo, "example.opus")
+    f0 = io.BytesIO(base)
+    pages = []
+    while True:
+        try:
+            pages.append(OggPage(f0))
+        except EOFError:
+            break
+    serial = pages[0].serial
+    old = [p for p in pages[1:3] if p.serial == serial][:1]
+    i = 1
+    old = [pages[1]]
+    while not (old[-1].complete or len(old[-1].packets) > 1):
+        i += 1; old.append(pages[i])
+    packets = OggPage.to_packets(old, strict=False)
+    comment = packets[0]
+    if not comment.startswith(b"OpusTags"):
+        ctx.notes.append("opus_trailing_data: unexpected layout"); return
+    # the comment list proper (vendor + comments), without whatever trails in the sample
+    import struct
+    pos = 8
+    vlen = struct.unpack("<I", comment[pos:pos + 4])[0]; pos += 4 + vlen
+    n = struct.unpack("<I", comment[pos:pos + 4])[0]; pos += 4
+    for _ in range(n):
+        l = struct.unpack("<I", comment[pos:pos + 4])[0]; pos += 4 + l
+    core = comment[:pos]
+    trails = [b"", b"\0" * 300, b"\x02" + b"\xaa" * 299, b"\xfe" * 40, b"\x20junk", b"\x01keep-me" + b"\x55" * 30, b"\xff" * 10]
+    for t in trails:
+        pk = [core + t] + packets[1:]
+        newp = OggPage.from_packets(pk, old[0].sequence, default_size=255 * 255)
+        g = io.BytesIO(base)
+        try:
+            OggPage.replace(g, old, newp)
+        except Exception as e:
+            ctx.hist["opus-trailing:cannot-build"] += 1; continue
+        data = g.getvalue()
+        if walkers.walk("OggOpus", data).errors:
+            ctx.hist["opus-trailing:not-wellformed"] += 1; continue
+        keep = bool(t) and bool(t[0] & 1)
+        for how in ("method", "function"):
+            f = F.NamedBytesIO(data, "x.opus")
+            case = {"sub": "opus-trailing-data", "trailing": t.hex()[:40], "trailing_len": len(t), "how": how}
+            def go():
+                if how == "method":
+                    o = OggOpus(f); f.seek(0); o.delete(f)
+                else:
+                    import mutagen.oggopus
+                    mutagen.oggopus.delete(f)
+            k, r = timed(go, 20)
+            ctx.case(key=("opus-trailing", t[:2].hex(), len(t), how), nontrivial=True, modelled=False, sample=case if t[:1] == b"\x02" and how == "method" else None)
+            ctx.hist["opus-trailing"] += 1
+            if k != "ok":
+                ctx.violation("OggOpus:trailing-data:delete-fails", repr(r)[:100], case); continue
+            w = walkers.walk("OggOpus", f.getvalue())
+            pkt = w.tag_bytes
+            # empty comment header: "OpusTags", vendor, zero comments
+            if not pkt.startswith(b"OpusTags"):
+                ctx.violation("OggOpus:trailing-data:no-comment-header", "comment packet missing after delete", case); continue
+            vl = struct.unpack("<I", pkt[8:12])[0]
+            minimal = 8 + 4 + vl + 4
+            cnt = struct.unpack("<I", pkt[12 + vl:16 + vl])[0]
+            extra = pkt[minimal:]
+            if cnt != 0:
+                ctx.violation("OggOpus:delete-leaves-tags", "%d comments after delete" % cnt, case)
+            if keep and extra != t:
+                ctx.violation("OggOpus:trailing-data:preserved-data-lost", "data that must be preserved (first byte odd) changed: %d -> %d bytes"
+                              % (len(t), len(extra)), case)
+            if not keep and extra:
+                ctx.violation("OggOpus:delete-leaves-padding", "the comment packet still carries %d bytes behind the empty comment header "
+                              "(padding whose first byte is even is not to be kept)" % len(extra), case)
+
+
 def run(ctx):
     containers.run_histories(ctx, {"delete", "foreign", "info"}, RULE)
+    opus_trailing_data(ctx)
     id3file_tie.run(ctx)
+    dsf_tie.run(ctx)
     iff_tie.run(ctx)
     apefile_tie.run(ctx)
 
